@@ -55,3 +55,19 @@ Proof.
   rewrite forallb_forall in T. specialize (T x (in_ascii_codes x Hx)). unfold folds_to in F. rewrite F in T.
   apply Bool.eqb_prop in T. symmetry in T. now apply N.eqb_eq in T.
 Qed.
+
+(* ======== the model's word alternation against what CPython's parser makes of the pattern text the source builds, on a sample list ======== *)
+Require RxNorm.
+From Coq Require Import String.
+Local Open Scope string_scope.
+Definition WORD_SAMPLE : list str := [lit "ab"; lit "Cde"; lit "k-s_9"].
+Theorem word_template_is_what_python_compiles_on_a_sample (s : list chr) i c :
+  match word_init WORD_SAMPLE (lit "s") [] with
+  | Done a => ms s (w_regex a) i c = ms s WORD_SAMPLE_RX i c
+  | Raised _ => False
+  end.
+Proof.
+  destruct (word_init WORD_SAMPLE (lit "s") []) as [a|e] eqn:E; [|vm_compute in E; discriminate].
+  assert (En : RxNorm.norm (w_regex a) = RxNorm.norm WORD_SAMPLE_RX) by (vm_compute in E; injection E as <-; vm_compute; reflexivity).
+  transitivity (ms s (RxNorm.norm (w_regex a)) i c); [symmetry; apply RxNorm.ms_norm|]. rewrite En. apply RxNorm.ms_norm.
+Qed.
